@@ -701,3 +701,124 @@ def targets():
             Target('circuit', 'Line.__init__', [line_init_config(True), line_init_config(False)], instantiate='fallback'),
             Target('circuit', 'Node.remove', [node_remove_config()], instantiate='fallback'),
             Target('circuit', 'Line.remove', [line_remove_config()], instantiate='fallback')]
+
+
+# ------------------------------------------------------------------------------------------- topological_line_order (C17)
+NODESEQ = z3.Function('NODESEQ', I, I)       # the node sequence produced by topological_order() (any sequence: its contract is bounded evidence)
+CNTY = z3.Function('CNTY', I, I)             # ghost: number of lines yielded before node position k
+
+
+def line_order_config():
+    """topological_line_order yields, for the nodes in the order topological_order() yields them, every connected output line in pin order, and nothing else"""
+    from pyvc.models_obj import SObj
+
+    class NodeSeq(Model):
+        def __init__(self, m):
+            self.m = m
+
+        def m_call(self, ex, st, args, kwargs, node):
+            return self
+
+        def m_iter(self, ex, st, node):
+            return SymIter(SInt(self.m), lambda ex_, st_, k: NodeRef(NODESEQ(to_int(k))))
+
+    def setup(ex):
+        st = fresh_state(ex)
+        v = V(st)
+        m = ex.fv('n_yielded_nodes', 'int').e
+        k = z3.Int('k')
+        st.assume(SBool(z3.And(m >= 0, z3.ForAll([k], z3.Implies(z3.And(0 <= k, k < m), z3.And(NODESEQ(k) != NONE, v.OL[NODESEQ(k)] >= 0))))))
+        st.heap['ylog'] = z3.Array('ylog0', I, I)
+        st.heap['ylen'] = SInt(z3.IntVal(0))
+        st.env['self'] = SObj.new(st, 'self', topological_order=NodeSeq(m))
+        ex.readonly.add(('self', 'topological_order'))
+        ex.g = dict(m=m, v0=v)
+        return st
+
+    def yield_hook(ex, st, val, node):
+        if not isinstance(val, LineRef):
+            ex.prove(st, 'only lines are yielded', False, node)
+            return
+        ex.prove(st, 'a yielded line is a connected line (never None)', SBool(val.oid != NONE), node)
+        n = to_int(st.heap['ylen'])
+        st.heap['ylog'] = z3.Store(st.heap['ylog'], n, val.oid)
+        st.heap['ylen'] = SInt(n + 1)
+
+    # position of the line on pin p of the k-th node in the yielded sequence: lines of earlier nodes + connected pins below p
+    CP = z3.Function('CONNPINS', I, I, I)       # CONNPINS(node, p) = number of connected output pins below p
+
+    def axioms(ex, st):
+        v = ex.g['v0']
+        n, p, k = z3.Ints('n p k')
+        st.assume(SBool(z3.ForAll([n], CP(n, 0) == 0)))
+        st.assume(SBool(z3.ForAll([n, p], z3.Implies(p >= 0, z3.And(CP(n, p + 1) == CP(n, p) + z3.If(v.O[n][p] != NONE, 1, 0), CP(n, p) >= 0)))))
+        st.assume(SBool(z3.And(CNTY(0) == 0, z3.ForAll([k], z3.Implies(k >= 0, CNTY(k + 1) == CNTY(k) + CP(NODESEQ(k), v.OL[NODESEQ(k)]))))))
+        p2 = z3.Int('p2')
+        st.assume(SBool(z3.ForAll([n, p, p2], z3.Implies(z3.And(0 <= p, p <= p2), CP(n, p) <= CP(n, p2)))))         # monotone (lemma below)
+        k2 = z3.Int('k2')
+        st.assume(SBool(z3.ForAll([k, k2], z3.Implies(z3.And(0 <= k, k <= k2), CNTY(k) <= CNTY(k2)))))                # monotone (lemma below)
+
+    def outer_inv(ex, st):
+        g = ex.g
+        v = g['v0']
+        k = to_int(st.env['__k0'])
+        Y, yl = st.heap['ylog'], to_int(st.heap['ylen'])
+        j, p = z3.Ints('j p')
+        yield 'Y1:lines yielded so far = connected outputs of the nodes passed so far', SBool(yl == CNTY(k))
+        yield 'Y2:the connected output on pin p of the j-th node sits at its position', \
+            SBool(z3.ForAll([j, p], z3.Implies(z3.And(0 <= j, j < k, 0 <= p, p < v.OL[NODESEQ(j)], v.O[NODESEQ(j)][p] != NONE), Y[CNTY(j) + CP(NODESEQ(j), p)] == v.O[NODESEQ(j)][p])))
+
+    def inner_inv(ex, st):
+        g = ex.g
+        v = g['v0']
+        k, q = to_int(st.env['__k0']), to_int(st.env['__k1'])
+        nd = NODESEQ(k)
+        Y, yl = st.heap['ylog'], to_int(st.heap['ylen'])
+        j, p = z3.Ints('j p')
+        yield 'Y1:lines yielded so far', SBool(yl == CNTY(k) + CP(nd, q))
+        yield 'Y2:earlier nodes', SBool(z3.ForAll([j, p], z3.Implies(z3.And(0 <= j, j < k, 0 <= p, p < v.OL[NODESEQ(j)], v.O[NODESEQ(j)][p] != NONE), Y[CNTY(j) + CP(NODESEQ(j), p)] == v.O[NODESEQ(j)][p])))
+        yield 'Y3:pins of the current node passed so far', SBool(z3.ForAll([p], z3.Implies(z3.And(0 <= p, p < q, v.O[nd][p] != NONE), Y[CNTY(k) + CP(nd, p)] == v.O[nd][p])))
+        yield 'outer index in range', SBool(z3.And(0 <= k, k < g['m']))
+
+    def post(ex, st):
+        g = ex.g
+        v = g['v0']
+        Y, yl = st.heap['ylog'], to_int(st.heap['ylen'])
+        j, p = z3.Ints('j p')
+        yield 'the number of yielded lines is the number of connected output pins of the yielded nodes', SBool(yl == CNTY(g['m']))
+        yield 'the connected output on pin p of the j-th yielded node is yielded at position (lines of earlier nodes) + (connected pins below p): node order, then pin order', \
+            SBool(z3.ForAll([j, p], z3.Implies(z3.And(0 <= j, j < g['m'], 0 <= p, p < v.OL[NODESEQ(j)], v.O[NODESEQ(j)][p] != NONE), Y[CNTY(j) + CP(NODESEQ(j), p)] == v.O[NODESEQ(j)][p])))
+        ex.prove(st, 'mustfail:nothing is ever yielded', SBool(yl == 0), ex.fn, expect='refuted')
+
+    def setup2(ex):
+        st = setup(ex)
+        axioms(ex, st)
+        return st
+    contract = {'post': post, 'yield_hook': yield_hook, 'merge_ifs': True,
+                'loops': {0: {'inv': outer_inv, 'modifies': ['ylog', 'ylen'], 'kinds': {'n': 'keep', 'line': 'keep'}},
+                          1: {'inv': inner_inv, 'modifies': ['ylog', 'ylen'], 'kinds': {'line': 'keep'}}}}
+    return Config('any node sequence, any pin lists', contract, setup2, None)
+
+
+def line_order_lemmas():
+    from pyvc.verify import Lemmas
+
+    def build():
+        CP = z3.Function('CONNPINS', I, I, I)
+        O = z3.Array('O_l', I, z3.ArraySort(I, I))
+        OL = z3.Array('OL_l', I, I)
+        n, p, p2, k, k2 = z3.Ints('n p p2 k k2')
+        cp_step = z3.And(CP(n, p2 + 1) == CP(n, p2) + z3.If(O[n][p2] != NONE, 1, 0))
+        yield 'CONNPINS-mono base', [], CP(n, p) <= CP(n, p)
+        yield 'CONNPINS-mono step', [cp_step, p2 >= 0, CP(n, p) <= CP(n, p2)], CP(n, p) <= CP(n, p2 + 1)
+        cy_step = z3.And(CNTY(k2 + 1) == CNTY(k2) + CP(NODESEQ(k2), OL[NODESEQ(k2)]), CP(NODESEQ(k2), OL[NODESEQ(k2)]) >= 0)
+        yield 'CNTY-mono base', [], CNTY(k) <= CNTY(k)
+        yield 'CNTY-mono step', [cy_step, CNTY(k) <= CNTY(k2)], CNTY(k) <= CNTY(k2 + 1)
+        yield 'mustfail:CNTY is constant', [cy_step], CNTY(k2 + 1) == CNTY(k2), 'refuted'
+    return Lemmas('lemma:CONNPINS and CNTY monotone (induction on the upper index)', build,
+                  note='justifies the two assumed monotonicity clauses of the topological_line_order contract; CONNPINS(n,p) >= 0 is part of its recurrence axiom')
+
+
+def targets_c17():
+    return [line_order_lemmas(), Target('circuit', 'Circuit.topological_line_order', [line_order_config()], instantiate='fallback',
+                   note='generator: yields are a ghost sequence; topological_order() enters as an arbitrary node sequence')]
